@@ -96,7 +96,7 @@ Proof.
     change (fold_left _ (handle_assembled_query (n_reg n) (n_cache n) msgs id addr port) (n, []))
       with (fold_left (qfold now rnd_q rnd_d) (handle_assembled_query (n_reg n) (n_cache n) msgs id addr port) (n, [])).
     specialize (F ltac:(intros a Ha; pose proof (handle_queue_times _ _ _ _ _ _ a Ha) as X; destruct a; try exact I;
-                        destruct X as (m0 & rest & -> & ->); inversion Hm; assumption) n [] HQ).
+                        destruct X as (m0 & rest & -> & ->); inversion Hm as [|m1 l1 Hm1 Hl1]; exact Hm1) n [] HQ).
     destruct (fold_left _ _ _) as [n' outs]. exact F.
   - destruct (async_ready_body (if delayq then n_qd n else n_q n) now) as [q' sent] eqn:E.
     destruct HQ as (A & B & C1 & C2 & C3 & C4).
@@ -228,3 +228,7 @@ Proof.
   split; [rewrite construct_multicast_answers; apply in_map_iff; exists x; split; [reflexivity|exact Hx]|].
   split; [exact Hxr|]. split; [reflexivity|]. destruct delayq; exact E3.
 Qed.
+
+Print Assumptions nstep_QBn.
+Print Assumptions Timed_run.
+Print Assumptions ready_step_sends.
